@@ -77,6 +77,9 @@ def main(argv):
             if keep:
                 print('plan restricted to %d of %d work items (VP_PLAN_FILTER)' % (len(keep), len(items)))
                 items = keep
+                # a restricted run never overwrites the evidence of the full check
+                os.environ.setdefault('VP_EVIDENCE_DIR', '/tmp/vp-filtered-evidence')
+                os.environ.setdefault('VP_REPLAY_DIR', '/tmp/vp-filtered-replays')
         merged = core.run_pool(check, items, getattr(check, 'NPROC', None))
         if hasattr(check, 'finish'):
             check.finish(ctx, merged)
